@@ -303,22 +303,41 @@ def gen_script(rng, case):
 def gen_request(rng):
     """One whole request (stream Q)."""
     focus = rng.choices(['range', 'cond', 'mixed'], weights=[40, 35, 25])[0]
-    kind = rng.choices(['file', 'tool', 'fobj', 'bio', 'gen'], weights=[30, 15, 10, 5, 40 if focus != 'range' else 4])[0]
+    kind = rng.choices(['file', 'tool', 'fobj', 'bio', 'gen', 'index'],
+                       weights=[30, 12, 10, 6, 40 if focus != 'range' else 4, 4])[0]
     method = rng.choices(['GET', 'HEAD', 'POST', 'PUT'], weights=[55, 17, 22, 6])[0]
-    if kind == 'tool' and method not in ('GET', 'HEAD'):
+    if kind in ('tool', 'index') and method not in ('GET', 'HEAD'):
         kind = 'file'
     proto = '1.1' if rng.random() < 0.88 else '1.0'
     case = {'op': 'Q', 'kind': kind, 'method': method, 'proto': proto, 'base': 200, 'hetag': None, 'lm': None,
-            'mtime': rng.choice([0, 1, 946684800, 1000000000, 1234567890, 1700000000, rng.randint(0, 2 * 10 ** 9)])}
+            'mtime': rng.choice([0, 1, 946684800, 1000000000, 1234567890, 1700000000, rng.randint(0, 2 * 10 ** 9),
+                                 1000000000.5, 1234567890.999, rng.randint(0, 2 * 10 ** 9) + 0.25])}
     n = gen_len(rng) if kind != 'gen' else rng.choice([0, 1, 5, 14, 100, rng.randint(0, 3000)])
     if n <= 64 and rng.random() < 0.6:
         case['hex'] = bytes(rng.getrandbits(8) for _ in range(n)).hex()
     else:
         case['len'], case['ca'], case['cb'] = n, rng.randint(1, 250), rng.randint(0, 250)
     case['etags'] = 0 if focus == 'range' and rng.random() < 0.7 else rng.choice([0, 1, 1, 2, 2, 2])
-    if kind != 'tool' and rng.random() < (0.45 if case['etags'] else 0.1):
+    if kind not in ('tool', 'index') and rng.random() < (0.45 if case['etags'] else 0.1):
         case['hetag'] = gen_etag(rng) if rng.random() < 0.95 else ''
     case['stream'] = 1 if rng.random() < 0.4 else 0
+    # configuration that must not change the answer: logging on, a Content-Disposition, a Content-Length
+    # set beforehand, a file object without fileno(), a response cookie
+    if rng.random() < 0.15:
+        case['dbg'] = 1
+    if kind in ('file', 'fobj', 'bio'):
+        if rng.random() < 0.08:
+            case['disp'] = rng.choice(['attachment', 'inline'])
+            if rng.random() < 0.6:
+                case['dname'] = rng.choice(['a.txt', 'na me.bin', 'r\xe9sum\xe9.txt'])
+        if rng.random() < 0.06:
+            case['precl'] = 1
+        if kind == 'bio' and rng.random() < 0.3:
+            case['raw'] = 1
+        if kind == 'file' and rng.random() < 0.01:
+            case['missing'] = rng.choice(['nofile', 'dir'])
+    if kind == 'gen' and rng.random() < 0.05:
+        case['cookie'] = 1
     if kind == 'gen':
         if rng.random() < 0.5:
             case['lm'] = httpdate(case['mtime']) if rng.random() < 0.9 else rng.choice(['x', 'Mon', '0'])
@@ -433,6 +452,51 @@ def enum_flow_table():
                     continue
                 for c in conds(etag, kind != 'bio', True):
                     out.append(dict(base, kind=kind, method=method, proto=proto, stream=stream, **extra, **c))
+    return out
+
+
+def enum_extras_table():
+    """Configuration that must not change any answer (logging on, the second way to configure staticdir, an index
+    file, Content-Disposition, a Content-Length set before the file is served, a file object without fileno(), a
+    response cookie) and resources that do not exist, each crossed with stream x GET/HEAD/POST x nothing / not
+    modified / precondition failed / Range."""
+    mtime = 1000000000
+    lm = httpdate(mtime)
+    base = {'op': 'Q', 'base': 200, 'mtime': mtime, 'len': 14, 'ca': 1, 'cb': 0, 'hetag': None, 'lm': None,
+            'proto': '1.1'}
+    auto = '"%s"' % hashlib.md5(content_bytes(base)).hexdigest()
+    variants = [
+        dict(kind='file', etags=2, dbg=1), dict(kind='tool', etags=2, dbg=1), dict(kind='fobj', etags=2, dbg=1),
+        dict(kind='index', etags=2), dict(kind='index', etags=2, dbg=1),
+        dict(kind='file', etags=2, disp='attachment'), dict(kind='file', etags=2, disp='attachment', dname='x y.txt'),
+        dict(kind='fobj', etags=2, disp='inline'), dict(kind='fobj', etags=2, disp='inline', dname='a.bin'),
+        dict(kind='file', etags=2, precl=1), dict(kind='fobj', etags=2, precl=1), dict(kind='bio', etags=2, precl=1),
+        dict(kind='bio', etags=2, raw=1), dict(kind='bio', etags=2, raw=1, dbg=1),
+        dict(kind='gen', etags=2, cookie=1, script='', shape='bytes'),
+        dict(kind='gen', etags=2, dbg=1, script='', shape='gen'),
+        dict(kind='gen', etags=1, hetag='"v1"', dbg=1, script='', shape='bytes'),
+        dict(kind='gen', etags=1, dbg=1, script='', shape='bytes'),
+        dict(kind='gen', etags=2, base=201, dbg=1, script='', shape='bytes'),
+        dict(kind='file', etags=0, missing='nofile'), dict(kind='file', etags=0, missing='dir'),
+        # staticdir declines: a method it does not serve, a path outside its match pattern, a path outside its directory
+        dict(kind='tool', etags=0, dbg=1, missing='post'), dict(kind='tool', etags=0, missing='post'),
+        dict(kind='tool', etags=0, dbg=1, missing='nomatch'), dict(kind='tool', etags=0, dbg=1, missing='dotdot'),
+        dict(kind='tool', etags=0, missing='dotdot'),
+    ]
+    out = []
+    for v in variants:
+        static = v['kind'] != 'gen'
+        tag = v.get('hetag') or auto
+        conds = [{}, {'inm': tag}, {'im': '"other"'}, {'im': tag, 'inm': '"a"'}]
+        if static and v['kind'] != 'bio':
+            conds += [{'ims': lm}, {'range': 'bytes=2-5'}, {'range': 'bytes=0-0,3-4'}, {'range': 'bytes=20-'},
+                      {'range': 'bytes=2-5', 'inm': tag}]
+        for stream in (0, 1):
+            for method in ('GET', 'HEAD', 'POST'):
+                if v['kind'] in ('tool', 'index') and (method == 'POST') != (v.get('missing') == 'post'):
+                    continue
+                for c in conds:
+                    out.append(dict(base, method=method, stream=stream, **v, **c))
     return out
 
 
